@@ -409,7 +409,14 @@ static void* preempter(void* a) {
   }
   return NULL;
 }
+static int g_preempt_on;
+// targeted use of the same perturbation: interrupt thread t now (no-op unless the run has preempt=1)
+int vp_preempt_now(pthread_t t) {
+  if (!g_preempt_on) return 0;
+  return pthread_kill(t, SIGUSR1) == 0;
+}
 static void preempt_start(void) {
+  g_preempt_on = 1;
   struct sigaction sa;
   memset(&sa, 0, sizeof(sa));
   sa.sa_handler = preempt_handler;
